@@ -143,9 +143,7 @@ pub proof fn lemma_filter_single(x: int, p: spec_fn(int) -> bool)
 
 // ---------------- C14: one entry per line: the command table ----------------
 pub enum PErr { Unsupported, Incorrect, Utf8 }
-pub open spec fn first_space(b: Seq<u8>) -> int decreases b.len() {
-    if b.len() == 0 { -1 } else if b[0] == 32u8 { 0 } else { let r = first_space(b.skip(1)); if r < 0 { -1 } else { r + 1 } }
-}
+pub open spec fn first_space(b: Seq<u8>) -> int { first_byte(b, 32u8) }
 /// first index >= from holding a non-whitespace byte (or len)
 pub open spec fn skip_ws(b: Seq<u8>, from: int) -> int decreases b.len() - from {
     if from < 0 || from >= b.len() { b.len() as int } else if ws(b[from]) { skip_ws(b, from + 1) } else { from }
